@@ -176,6 +176,11 @@ struct CircuitGen {
                         uint32_t bits = (pb == 1 ? TARGET_PAULI_X_BIT : pb == 2 ? TARGET_PAULI_Z_BIT : (TARGET_PAULI_X_BIT | TARGET_PAULI_Z_BIT));
                         fac.push_back(x | bits);
                     }
+                    // sometimes make the whole product (or a factor pair) cancel exactly: products equal to +-I are legal
+                    if (allow_repeat && rng.chance(0.4) && !fac.empty()) {
+                        if (rng.chance(0.5)) fac = {fac[0], fac[0]};
+                        else fac.push_back(fac[rng.below(fac.size())]);
+                    }
                     // phase check
                     std::map<uint32_t, std::pair<bool, bool>> acc;
                     int ph = 0;
